@@ -304,6 +304,54 @@ pub fn starve(mut plan: Plan, seed: u64) -> Plan {
     plan
 }
 
+/// C04 with a disconnect that a peer only hears about: three peers on a fast clean network, one
+/// of them drops a player through the API, the others adopt that from its connection statuses;
+/// afterwards one of the remaining links is cut one way for a while. Whoever is still connected
+/// must keep bounding the speculation of the others.
+fn c04_gossip(property: &str, seed: u64) -> Plan {
+    let c = Ch::new(seed, "c04g");
+    let mut p = s1(property, "c04-heard-disconnect-then-starve", seed, &S1Opts { faults: false, min_peers: 3, max_peers: 3, allow_spectators: false, mp_choices: &[4, 6, 8, 12], frames_lo: 300, frames_hi: 500, long_run_pct: 0, ..Default::default() });
+    p.cfg.timeout_ms = 120_000;
+    p.cfg.notify_ms = 30_000;
+    p.cfg.input_delay = p.cfg.input_delay.min(2);
+    let per = 1_000_000 / p.cfg.fps as u64;
+    for n in p.nodes.iter_mut() {
+        n.tick.period_us = per;
+        n.tick.jitter_us = 0;
+        n.tick.pauses.clear();
+        n.tick.start_us = n.tick.start_us.min(ms(20));
+    }
+    for l in p.links.iter_mut() {
+        l.base_us = l.base_us.min(ms(8));
+        l.jitter_us = l.jitter_us.min(ms(2));
+        l.loss_ppm = 0;
+        l.dup_ppm = 0;
+    }
+    p.windows.clear();
+    let peers = p.peers();
+    let v = peers[c.range(&[1], 0, 2) as usize];
+    let caller = peers.iter().copied().find(|&x| x != v).unwrap();
+    let third = peers.iter().copied().find(|&x| x != v && x != caller).unwrap();
+    let handle = match &p.nodes[v].kind {
+        NodeKind::Peer { locals } => locals[0],
+        _ => unreachable!(),
+    };
+    // the dropped peer has fallen silent shortly before (its last packets reach everybody, so all
+    // hold the same amount of its input): a cut-off adopted from another peer that lies below what
+    // the adopter already holds is the recorded C10 defect, which this sub-batch must stay clear of
+    let t0 = c.range(&[2], ms(1500), ms(3000));
+    p.nodes[v].tick.stop_us = Some(t0);
+    let t = t0 + c.range(&[6], ms(300), ms(800));
+    p.api.push(ApiCall { node: caller, at_us: t, call: Api::Disconnect { handle } });
+    let cut = t + c.range(&[3], ms(300), ms(1000));
+    let d = c.range(&[4], ms(1000), ms(3000));
+    let (from, to) = if c.chance(&[5], 500_000) { (caller, third) } else { (third, caller) };
+    p.windows.push(Window { from, to, start_us: cut, end_us: cut + d, kinds: ALL_KINDS, action: WinAction::Drop });
+    p.horizon_us = cut + d + ms(2000);
+    p.oracle.liveness = None;
+    p
+}
+
 pub fn synctest(property: &str, seed: u64, faulty: bool, invalid: bool) -> Plan {
     let c = Ch::new(seed, "synctest");
     let np = c.range(&[1], 1, 4) as usize;
@@ -402,6 +450,7 @@ pub fn generate(property: &str, tier: &str, seed: u64, index: u64) -> Plan {
             2 => c07(property, seed),
             _ => s1(property, "s1", seed, &S1Opts::default()),
         },
+        "C04" if index % 5 == 4 => c04_gossip(property, seed),
         "C04" => match index % 4 {
             0 => s1(property, "s1-allwindows", seed, &S1Opts { mp_choices: ALL_WINDOWS, ..Default::default() }),
             1 => starve(s1(property, "s1-lockstep", seed, &S1Opts { mp_choices: &[0], max_peers: 3, ..Default::default() }), seed),
@@ -1160,11 +1209,24 @@ pub fn c06(property: &str, seed: u64) -> Plan {
     if peers.len() == 2 && c.chance(&[13], 400_000) {
         let hosts: Vec<usize> = p.nodes.iter().filter_map(|n| if let NodeKind::Spectator { host, .. } = n.kind { Some(host) } else { None }).collect();
         if let Some(&v) = peers.iter().find(|x| !hosts.contains(x)) {
-            p.nodes[v].tick.stop_us = Some(c.range(&[14], ms(500), horizon.max(ms(600))));
+            let at = c.range(&[14], ms(500), horizon.max(ms(600)));
+            if c.chance(&[18], 400_000) {
+                // ... or the host's application drops it through the API while it is alive and possibly
+                // ahead of the host: the spectator must get its real inputs up to the cut-off
+                let host = *peers.iter().find(|&&x| x != v).unwrap();
+                let handle = match &p.nodes[v].kind {
+                    NodeKind::Peer { locals } => locals[0],
+                    _ => unreachable!(),
+                };
+                p.api.push(ApiCall { node: host, at_us: at, call: Api::Disconnect { handle } });
+                p.scenario = "c06-player-dropped-by-host".into();
+            } else {
+                p.nodes[v].tick.stop_us = Some(at);
+                p.scenario = "c06-player-dies".into();
+            }
             p.cfg.timeout_ms = 2000;
             p.cfg.notify_ms = 500;
             p.horizon_us += ms(2500);
-            p.scenario = "c06-player-dies".into();
         }
     }
     // with two spectators the host may cut one loose through the API; the other must not notice
@@ -1504,6 +1566,18 @@ pub fn c11(property: &str, seed: u64, index: u64) -> Plan {
 
 pub fn c18(property: &str, seed: u64, index: u64) -> Plan {
     let c = Ch::new(seed, "c18");
+    if index % 7 == 6 {
+        // the sole survivor: every remote player is gone (death or disconnect_player) and the
+        // session plays on alone for a long time; endpoints that no longer run must not be
+        // buffered for
+        let mut p = c07(property, seed);
+        p.scenario = format!("c18-sole-survivor-{}", p.scenario);
+        p.horizon_us += ms(c.range(&[40], 10_000, 60_000));
+        p.oracle.liveness = None;
+        p.oracle.lifecycle_timing = false;
+        p.injects.clear();
+        return p;
+    }
     match index % 6 {
         0 => {
             // all-local session: no remote peers at all
